@@ -18,6 +18,7 @@ func init() {
 		ID: "C08", Patterns: []string{"./interp"},
 		Extra: func(r *Run) {
 			r.frameCondition("interp")
+			r.deferShape()
 		},
 		Covered: []string{"frame condition on every run-time closure: generation-time (captured) state is read-only"},
 		Uncov:   []string{"schedules and output equality under interleavings", "races the script itself causes inside frame data", "aliasing through locals (c := captured; c[i] = ...) is not tracked"},
@@ -74,5 +75,17 @@ func init() {
 		Covered: []string{"default table lacks unsafe/syscall/os/exec", "exit entry points bound to the restricted replacements, which never return normally and call no exiting function", "no unwrapped *log.Logger is handed out (function results and variables)", "Getenv/LookupEnv/Setenv/Unsetenv/Clearenv implement the map model over interp.env", "shape of the stream/argument redirection closures of fixStdlib"},
 		Uncov:   []string{"Environ (map iteration multiset) and ExpandEnv (delegation to os.Expand)", "Options.Env parsing in New", "cmd/yaegi flag gating", "loggers reachable through struct fields (http.Server.ErrorLog) or interfaces"},
 		Trusted: []string{"T1 go toolchain, go/types, solvers", "T2 govc", "T5 log.Panic* panic without exiting; fmt.Fprint* write only to their writer"},
+	})
+}
+
+func init() {
+	register(&PropDef{
+		ID: "C06", Patterns: []string{"./interp", "./stdlib"},
+		Extra: func(r *Run) {
+			r.deferShape()
+		},
+		Covered: []string{"runCfg's deferred function runs every deferred entry once, in order (on normal exit; the exceptional exit is a known finding)", "recover reads/clears only the caller frame", "defer producers push-front a fresh record", "defer arguments are copies (syntactic obligation; known finding)", "Execute/EvalWithContext convert every panic into interp.Panic carrying the original value", "restricted exit functions never return normally"},
+		Uncov:   []string{"which run-time faults reflect raises", "panic position in the output", "callBin's defer branch (its closure is selected among eight; contract not written)"},
+		Trusted: []string{"T1 go toolchain, solvers", "T2 govc", "reflect.Value.Call applies its receiver once and may panic", "T5 log.Panic* panic"},
 	})
 }
